@@ -285,6 +285,8 @@ def support_code(case):
         out.append("pub mod %s {\n%s}\n" % (mod, body))
     else:
         out.append(body)
+    if sup.get("serde_reexport"):
+        out.append("pub mod %s { pub use ::serde as %s; }\n" % tuple(sup["serde_reexport"]))
     for en, vals in sorted((sup.get("extern_enums") or {}).items()):
         # a hand-written enum with the reference wire behaviour
         out.append("#[derive(Debug, Clone, PartialEq, Eq)]\npub enum %s { %s Other(String) }\n" % (en, " ".join("V%d," % i for i in range(len(vals)))))
@@ -556,7 +558,7 @@ class Factory:
                     want = tgt.split(":", 1)[1].replace("_", "").lower()
                     ens = [e for e in self.disc.get(cid, {}).get("enums", []) if e["name"].replace("_", "").lower() == want]
                     tgt = "%s/%s" % (ens[0]["module"], ens[0]["name"]) if ens else "no-enum-discovered"
-                key = "%s:%s/%s" % (v["kind"], cid, tgt)
+                key = "%s:%s/%s" % (v["kind"].split("-")[0], cid, tgt)     # "vars-reach" uses the `vars` probe
                 lines.append(json.dumps({"key": key, "vid": v["id"], "input": v["input"]}))
             try:
                 p = subprocess.run([exe], input=("\n".join(lines) + "\n").encode(), capture_output=True, timeout=300)
